@@ -27,7 +27,7 @@ fn ctxs(seed: u64) -> Vec<[u8; 8]> {
 
 fn derive(len: usize, id: u64, ctx: &[u8; 8], key: &[u8; 32]) -> Result<Option<Vec<u8>>, String> {
     guarded(AssertUnwindSafe(|| {
-        let mut out = vec![0u8; len];
+        let mut out = vec![0xC3u8; len];
         crypto_kdf_derive_from_key(&mut out, id, ctx, key).ok().map(|_| out)
     }))
 }
@@ -109,7 +109,7 @@ pub fn run() -> i32 {
                                 let (kl2, cl2) = (kl.clone(), cl.clone());
                                 let obj = guarded(AssertUnwindSafe(move || Kdf::<Vec<u8>, Vec<u8>>::from_parts(kl2, cl2).derive_subkey_to_vec(id).ok()));
                                 let cls = guarded(AssertUnwindSafe(move || {
-                                    let mut out = [0u8; 32];
+                                    let mut out = [0xC3u8; 32];
                                     crypto_kdf_derive_from_key(&mut out, id, dryoc::types::ByteArray::<8>::as_array(&cl), dryoc::types::ByteArray::<32>::as_array(&kl)).ok().map(|_| out.to_vec())
                                 }));
                                 let consistent = match (&obj, &cls) {
